@@ -308,9 +308,12 @@ Section Lookup.
   Definition lookup_converter_func (name : str) (pos : position) : res (ty * ty * bool) :=
     match lookup_type name with
     | LNotFound => errorf (at_pos' pos (s2b "function " ++ name ++ s2b " not found"))
-    | LObj (OFunc sg _ _ _) =>
+    | LObj (OFunc sg exported pkg _) =>
         let np := List.length (sg_ptys sg) in let nr := List.length (sg_rtys sg) in
-        if negb (Nat.eqb np 1) || Nat.ltb nr 1 || Nat.ltb 2 nr then
+        if negb exported && negb (str_eqb pkg (d_pkg_path d)) then
+          (* a function of another package that the generated code could not call *)
+          errorf (at_pos' pos (s2b "function " ++ name ++ s2b " is not exported"))
+        else if negb (Nat.eqb np 1) || Nat.ltb nr 1 || Nat.ltb 2 nr then
           errorf (at_pos' pos (s2b "function " ++ name ++ s2b " cannot use as a converter"))
         else
           match sg_ptys sg, sg_rtys sg with
